@@ -172,6 +172,18 @@ def run_case(case):
         for a_, b_ in zip(e_arr if isinstance(e_arr, tuple) else (e_arr,), e_st if isinstance(e_st, tuple) else (e_st,)):
             c.close(np.asarray(a_, float), np.asarray(b_, float), "enroll_using_array", "enroll_using_array vs enroll on the UBM statistics", tags, rtol=1e-10, scale=1.0)
         c.transitions += 3
+        # a probe that is one single frame, given as a 1-D vector / as a 1 x D array / next to a longer recording
+        f1 = arrays[0][0].copy()
+        st1 = ubm.acc_stats(f1.reshape(1, -1))
+        want1 = float(m.score(model, [st1]))
+        c.close(float(m.score_using_array(model, [f1.copy()])), want1, "score_using_array", "score_using_array on one frame given as a 1-D vector vs score on its statistics", tags,
+                rtol=1e-10, scale=scale * 1e-3)
+        c.close(float(m.score_using_array(model, [f1.reshape(1, -1).copy()])), want1, "score_using_array", "score_using_array on one frame given as a 1 x D array vs score on its statistics", tags,
+                rtol=1e-10, scale=scale * 1e-3)
+        want2 = float(m.score(model, [ubm.acc_stats(arrays[0]), st1]))
+        c.close(float(m.score_using_array(model, [arrays[0].copy(), f1.copy()])), want2, "score_using_array", "score_using_array on a recording plus a single 1-D frame vs score on their statistics", tags,
+                rtol=1e-10, scale=scale * 1e-3)
+        c.transitions += 5
         if case["fac"] == 1:
             # a long recording (2500 frames, deterministic): array-level entry points vs statistics of the whole array
             base = np.vstack(frames[:3])
